@@ -91,6 +91,7 @@ def inputs():
     _INPUTS["stock_doc"] = wire.doc(U.MAXS(U.cls_by_name("STOCKINFO")))
     mfd = wire.doc(U.MAXS(U.cls_by_name("MFINFO")))
     _INPUTS["mf_doc_vendor"] = (mfd[0], [mfd[1][0], ("INTU.X", "1")] + list(mfd[1][1:]))
+    _INPUTS["two_seclists_doc"] = wire.doc(ofx_rs(("seclistmsgsrsv1", ("SECLISTMSGSRSV1", {}, [("SECLIST", {}, [U.MAXS(U.cls_by_name("STOCKINFO"))]), ("SECLIST", {}, [U.MAXS(U.cls_by_name("MFINFO")), U.vary(U.MAXS(U.cls_by_name("STOCKINFO")), 3)])]))))
     _INPUTS["seclist_doc"] = wire.doc(("SECLIST", {}, [U.MAXS(U.cls_by_name("STOCKINFO")), U.MAXS(U.cls_by_name("MFINFO"))]))
     return _INPUTS
 
@@ -174,7 +175,33 @@ def shared_client():
                 return "00000000-0000-4000-8000-000000000001"
 
         _SHARED.append(PinnedClient("http://x/ofx", userid="user", org="ORG", fid="7", version=203, clientuid="CUID", bankid="123", brokerid="b.example"))
+        # a second institution that shares the ORG (a service bureau) but not the FID, the URL or the user
+        _SHARED.append(PinnedClient("http://y/ofx", userid="other", org="ORG", fid="8", version=203, clientuid="CUID2", bankid="456"))
     return _SHARED[0]
+
+
+def _other_client_op():
+    shared_client()
+    cl = _SHARED[1]
+    before = repr(sorted((k, repr(v)) for k, v in vars(cl).items() if k != "cookiejar"))
+    out = cl.request_profile(version=102, gen_newfileuid=False, dryrun=True).read()
+    after = repr(sorted((k, repr(v)) for k, v in vars(cl).items() if k != "cookiejar"))
+    return hashlib.sha1(out).hexdigest() + ":" + out[-200:].decode("ascii", "replace"), before == after, "the second client object (its configuration)"
+
+
+def _look_then_write():
+    """a converted response with two security lists is written, looked at (repr, the securities shortcut - what a log line
+    or a debugger does) and written again: looking must not change what is written"""
+    from ofxtools.models.base import Aggregate
+
+    with warnings.catch_warnings():
+        warnings.simplefilter("ignore")
+        inst = Aggregate.from_etree(to_et(inputs()["two_seclists_doc"]))
+    w0 = tree_repr(inst.to_etree())
+    m0 = model_repr(inst)
+    seen = [len(inst.securities), len(repr(inst)) > 0, len(inst.securities)]
+    w1 = tree_repr(inst.to_etree())
+    return hashlib.sha1(w0.encode()).hexdigest() + repr(seen), (w0 == w1 and model_repr(inst) == m0), "the model instance that was looked at between two writes"
 
 
 def _client_op(which):
@@ -391,6 +418,8 @@ OPS = {
     "client_statement_rq": lambda: _client_op("statement"),
     "client_serialize_default_form": lambda: _client_op("serialize"),
     "client_serialize_request_with_overrides": lambda: _client_op("serialize-request-overrides"),
+    "other_client_same_org_profile_rq": _other_client_op,
+    "write_look_write_two_seclists": _look_then_write,
 }
 OPNAMES = list(OPS)
 SMALL = ["dt_convert_fresh_descriptor", "dt_convert_class_descriptor", "dt_unconvert_utc", "dt_unconvert_est_same_instant", "time_unconvert_utc", "time_unconvert_est_same_instant"]
